@@ -1,6 +1,8 @@
 import TFV.Properties.SelfConf
 import TFV.Properties.Src.SelfCGAAdapt
 import TFV.Properties.Src.PdpgaTrial
+import TFV.Properties.Src.GATrial
+import TFV.Properties.Src.GPTrial
 #print axioms TFV.SelfConf.C14_bumped_sum
 #print axioms TFV.SelfConf.C14_newProba_dist
 #print axioms TFV.SelfConf.C14_newProba_rule
